@@ -45,6 +45,9 @@ for run in req['runs']:
             fakes3.install(s3mod, objects={k: v.encode('utf-8') for k, v in run['s3'].items()}, lazy=True)
         so, se = io.StringIO(), io.StringIO()
         status = None
+        cwd0 = os.getcwd()
+        if run.get('cwd'):
+            os.chdir(d)                 # the command is run from inside the directory: bare relative names on the command line
         with contextlib.redirect_stdout(so), contextlib.redirect_stderr(se):
             try:
                 status = main(argv)
@@ -52,6 +55,7 @@ for run in req['runs']:
                 status = 'exit:%r' % (e.code,)
             except BaseException as e:
                 status = 'raised:' + type(e).__name__
+        os.chdir(cwd0)
         of = None
         if run.get('outfile'):
             p = os.path.join(d, run['outfile'])
